@@ -477,6 +477,24 @@ pub fn layout_seeds(tier: &str) -> Vec<(Seed, PlanOpts)> {
         let opts = PlanOpts { truncations: false, structure: false, u32_faults: false, ..PlanOpts::full() };
         out.push((Seed { name: f.trim_start_matches("/repo/").to_string(), bytes, wrap: Wrap::Raw }, PlanOpts { layout_only: true, ..opts }));
     }
+    // synthetic fonts whose GSUB serves a complex script (the script-specific shapers fetch their lookup lists through
+    // the lookup cache without asking for the supported features first): a value fault in the ScriptList / FeatureList
+    // makes that fetch fail, and every later run on the same Font must fail (or work) just as cleanly
+    for (script, chars) in [(b"thai", [0x0E01u32, 0x0E34, 0x0E48]), (b"arab", [0x0628, 0x064E, 0x0644]), (b"dev2", [0x0915, 0x094D, 0x0937]), (b"khmr", [0x1780, 0x17D2, 0x1798]), (b"mym2", [0x1000, 0x1039, 0x1019]), (b"syrc", [0x0712, 0x0730, 0x0720])] {
+        let mut sl = otmodel::be::W::new();
+        sl.u16(1).tag(otmodel::tag(script)).u16(8);
+        sl.u16(4).u16(0).u16(0).u16(0xFFFF).u16(2).u16(0).u16(1);
+        let feats = match &script[..] {
+            b"arab" | b"syrc" => [otmodel::tag(b"ccmp"), otmodel::tag(b"init")],
+            b"thai" => [otmodel::tag(b"ccmp"), otmodel::tag(b"liga")],
+            _ => [otmodel::tag(b"abvs"), otmodel::tag(b"pres")],
+        };
+        let gsub = crate::c03::gsub_one_lookup_per_feature(&sl.done(), &feats);
+        let cmap: Vec<(u32, u16)> = chars.iter().enumerate().map(|(k, c)| (*c, 1 + k as u16)).chain([(0x25CC, 4)]).collect();
+        let bytes = otmodel::tables::minimal_font(8, &cmap, &[(tag::GSUB, gsub)]);
+        let opts = PlanOpts { truncations: false, structure: false, layout_only: true, ..PlanOpts::full() };
+        out.push((Seed { name: format!("synthetic/gsub-for-script-{}", String::from_utf8_lossy(script)), bytes, wrap: Wrap::Raw }, opts));
+    }
     // synthetic kern / layout seeds
     for (name, bytes) in crate::synth::seeds() {
         if name.starts_with("kern") {
@@ -505,7 +523,25 @@ pub fn shape_battery(data: &[u8]) -> crate::battery::Report {
     rep.loaded = true;
     // AOTS fonts: their lookups act on glyphs 17..27 = U+0011..U+001B (identity cmap) under script latn,
     // language UNKN, feature 'test'. Other seeds: whatever of these characters they map, else "AB".
-    let mapped: Vec<char> = ('\u{11}'..='\u{1B}').chain("ABfi".chars()).filter(|c| guard(|| font.lookup_glyph_index(*c, MatchingPresentation::NotRequired, None).0).map_or(false, |g| g != 0)).take(8).collect();
+    // the script of a font made for one complex script: its GSUB ScriptList has exactly one record
+    let own_script: Option<u32> = otmodel::sfnt::parse(data).and_then(|f| f.table(tag::GSUB)).and_then(|g| {
+        let sl = otmodel::be::u16_at(g, 4)? as usize;
+        if otmodel::be::u16_at(g, sl)? != 1 {
+            return None;
+        }
+        let t = otmodel::be::u32_at(g, sl + 2)?;
+        [b"thai", b"arab", b"dev2", b"khmr", b"mym2", b"syrc"].iter().map(|s| otmodel::tag(*s)).find(|s| *s == t)
+    });
+    let script_chars: &[char] = match own_script.map(|t| t.to_be_bytes()) {
+        Some([b't', b'h', b'a', b'i']) => &['\u{0E01}', '\u{0E34}', '\u{0E48}'],
+        Some([b'a', b'r', b'a', b'b']) => &['\u{0628}', '\u{064E}', '\u{0644}'],
+        Some([b'd', b'e', b'v', b'2']) => &['\u{0915}', '\u{094D}', '\u{0937}'],
+        Some([b'k', b'h', b'm', b'r']) => &['\u{1780}', '\u{17D2}', '\u{1798}'],
+        Some([b'm', b'y', b'm', b'2']) => &['\u{1000}', '\u{1039}', '\u{1019}'],
+        Some([b's', b'y', b'r', b'c']) => &['\u{0712}', '\u{0730}', '\u{0720}'],
+        _ => &[],
+    };
+    let mapped: Vec<char> = script_chars.iter().copied().chain('\u{11}'..='\u{1B}').chain("ABfi".chars()).filter(|c| guard(|| font.lookup_glyph_index(*c, MatchingPresentation::NotRequired, None).0).map_or(false, |g| g != 0)).take(8).collect();
     let mut texts: Vec<String> = Vec::new();
     for a in &mapped {
         texts.push(a.to_string());
@@ -515,7 +551,7 @@ pub fn shape_battery(data: &[u8]) -> crate::battery::Report {
     }
     let all: String = mapped.iter().collect();
     for k in 3..=mapped.len() {
-        texts.push(all[..k].to_string());
+        texts.push(all.chars().take(k).collect());
         texts.push(all.chars().rev().take(k).collect());
     }
     if std::env::var("VERIF_TIER").as_deref() == Ok("thorough") {
@@ -532,9 +568,14 @@ pub fn shape_battery(data: &[u8]) -> crate::battery::Report {
     }
     let n = font.num_glyphs();
     let unkn = otmodel::tag(b"UNKN");
-    let cfgs = [(5u8, tag::LATN, Some(unkn), true), (5, tag::DFLT, None, false), (0, tag::LATN, None, true)];
+    let mut cfgs = vec![(5u8, tag::LATN, Some(unkn), true), (5, tag::DFLT, None, false), (0, tag::LATN, None, true)];
+    if let Some(t) = own_script {
+        // the shaping-model script tag the shaper dispatches on
+        let shaper_tag = match &t.to_be_bytes() { b"dev2" => tag::DEVA, b"mym2" => tag::MYMR, _ => t };
+        cfgs = vec![(0u8, shaper_tag, None, true), (0, t, None, false)];
+    }
     for text in &texts {
-        for (fk, script, lang, kerning) in cfgs {
+        for &(fk, script, lang, kerning) in &cfgs {
             rep.entries_run += 1;
             crate::isolate::set_entry("Font::shape(corrupt-layout)");
             let r = guard(|| {
